@@ -802,14 +802,10 @@ class C12(core.Check):
 
     @staticmethod
     def global_settings():
-        """process-wide knobs no library call has any business changing"""
-        import logging
-        import warnings
-
-        root = logging.getLogger()
-        return {"recursionlimit": sys.getrecursionlimit(), "switchinterval": sys.getswitchinterval(), "cwd": simfs._real_getcwd(),
-                "environ": core.digest(sorted(os.environ.items())), "logging_root_level": root.level, "logging_root_handlers": len(root.handlers),
-                "logging_disabled": logging.root.manager.disable, "warnings_filters": len(warnings.filters)}
+        """process-wide state that later calls' RESULTS can depend on (include resolution follows the working
+        directory, MAPPYFILE_USE_CYTHON is read from the environment, deep documents meet the recursion limit).
+        Logging / warnings configuration is deliberately not part of it: intrusive perhaps, but no result depends on it."""
+        return {"recursionlimit": sys.getrecursionlimit(), "cwd": simfs._real_getcwd(), "environ": core.digest(sorted(os.environ.items()))}
 
     def execute(self, case):
         before = self.global_settings()
